@@ -22,6 +22,14 @@ CLAIMS = {
          "read one (ascending: PrevAlh, descending: Alh). Narrower than the property: the commit-state lock invariant, restart, compaction and file "
          "contents are not decided.",
          "DESIGN.md 3 (C02)"),
+ "C03": ("Write-ordering typestate over the real synced-mode commit path: in ImmuStore.sync every commit-log append/rewind and the durable-precommit "
+         "acknowledgement happen only after a successful tx-log Flush then Sync; the committed frontier moves and committers are acknowledged only after a "
+         "successful commit-log Flush then Sync; each value log is flushed then fsynced and the closure reports success only then; ImmuStore.commit returns "
+         "a nil error only after the commit watcher acknowledged the tx; AHtree.sync rewrites its commit log only after payload and digest logs are fsynced "
+         "and moves its synced frontier only after the commit-log fsync; TBtree.flushTree appends the commit-log entry only after node/history logs are "
+         "flushed, fsyncs them before the commit log, and discards node-log data only after the commit-log fsync. Far narrower than the property: crash-point "
+         "enumeration, partial-write images, recovery at Open and post-recovery proofs are not decided.",
+         "DESIGN.md 3 (C03), 9.5"),
  "C08": ("Verifier half of the property: ahtree.EvalInclusion / EvalLastInclusion / EvalConsistency equal the recursive reference definitions of "
          "path evaluation and VerifyInclusion / VerifyLastInclusion / VerifyConsistency accept exactly when the shape conditions hold and the "
          "evaluated root equals the claimed one (both directions); htree.VerifyInclusion likewise. The tree generators (Append, BuildWith, "
